@@ -192,3 +192,26 @@ def binop_reach(a0: bool, a1: bool, a2: bool, a3: bool, a4: bool) -> bool:
         return True
     pt = apply_binary_operation(ast.Add(), get_pedal_type_from_value(VALUES[ia]), get_pedal_type_from_value(1))
     return not isinstance(pt, ImpossibleType)
+
+
+def numeric_twins(v: int, float_first: bool) -> bool:
+    """
+    An int and the float equal to it (3 and 3.0) typed one after the other in the same process, in both orders: each gets
+    the type of ITS OWN Python type, and `"ab" * 3.0`-style TypeErrors are still reported.
+
+    pre: -4 <= v <= 4
+    post: _
+    """
+    tick()
+    f = float(v)
+    if float_first:
+        tf, ti = get_pedal_type_from_value(f), get_pedal_type_from_value(v)
+    else:
+        ti, tf = get_pedal_type_from_value(v), get_pedal_type_from_value(f)
+    ti2, tf2 = get_pedal_type_from_value(v), get_pedal_type_from_value(f)
+    int_t, float_t = normalize_type(int).as_type(), normalize_type(float).as_type()
+    ok = (bool(is_subtype(ti, int_t)) and bool(is_subtype(ti2, int_t)) and bool(is_subtype(tf, float_t))
+          and bool(is_subtype(tf2, float_t)) and not bool(is_subtype(tf, int_t)))
+    shift = apply_binary_operation(ast.LShift(), ti2, tf2)        # 1 << 1.0 is a TypeError in CPython
+    repeat = apply_binary_operation(ast.Mult(), get_pedal_type_from_value("ab"), tf2)   # "ab" * 1.0 as well
+    return ok and isinstance(shift, ImpossibleType) and isinstance(repeat, ImpossibleType)
